@@ -153,6 +153,7 @@ func protoMessages(src string) [][2]string {
 	}
 	return out
 }
+
 var reSigner = regexp.MustCompile(`option\s*\(cosmos\.msg\.v1\.signer\)\s*=\s*"(\w+)"`)
 
 // ProtoSigners: message name -> Go field name of the declared signer.
